@@ -31,7 +31,9 @@
      P_retry  (repair, not implemented) such a message is kept in `pending` and retried at the next
               try_drop; a block is also released when the line that ENDS EXACTLY ON ITS LAST BYTE is
               released.
-   Definitions only; proofs are in Proofs/RetainProofs.v. *)
+   Definitions only; proofs are in Proofs/RetainProofs.v (bound of P_retry, F9b, F9c),
+   Proofs/RetainLayout.v (every layout is well formed), Proofs/RetainLag.v (F9a for every n).
+   The windowed reader (search phase first) is Model/RetainSearch.v. *)
 From Coq Require Import List NArith Bool Sorted.
 Import ListNotations.
 Open Scope N_scope.
@@ -40,8 +42,8 @@ Inductive policy := P_cur | P_retry.
 Record cfg := { pol : policy; streamed : bool }.
 
 (* a line: key (index in the file), first block, last block, "its last byte is the last byte of a
-   block", file offset of its last byte *)
-Record lspan := { lkey : N; lfb : N; llb : N; ledge : bool; lend : N }.
+   block", file offset of its last byte, file offset of its first byte *)
+Record lspan := { lkey : N; lfb : N; llb : N; ledge : bool; lend : N; lbeg : N }.
 
 (* a message: key (index), first line, other lines, the first line of the next message *)
 Record msg := { mkey : N; mfirst : lspan; mbody : list lspan; mnext : option lspan }.
@@ -219,7 +221,8 @@ Fixpoint spans (bs off key : N) (layout : list (N * bool)) : list (lspan * bool)
   | [] => []
   | (len, dated) :: r =>
       let e := off + len - 1 in
-      ({| lkey := key; lfb := off / bs; llb := e / bs; ledge := (off + len) mod bs =? 0; lend := e |},
+      ({| lkey := key; lfb := off / bs; llb := e / bs; ledge := (off + len) mod bs =? 0; lend := e;
+         lbeg := off |},
        dated) :: spans bs (off + len) (key + 1) r
   end.
 
@@ -259,8 +262,8 @@ Definition run_layout (c : cfg) (bs : N) (layout : list (N * bool)) (lag : N) : 
 Definition find_all (c : cfg) (ms : list msg) : st :=
   fold_left (fun s m => do_find c s false m) ms (init ms).
 
-(* ---- well-formed message sequences (what Proofs/RetainProofs.v assumes of the input; proved
-   there for every layout) *)
+(* ---- well-formed message sequences (what Proofs/RetainProofs.v assumes of the input;
+   Proofs/RetainLayout.v proves it for every layout) *)
 Definition line_ok (bs : N) (l : lspan) : Prop :=
   lfb l <= llb l /\ llb l * bs <= lend l /\ lend l < (llb l + 1) * bs.
 (* b is the line after a *)
@@ -310,7 +313,7 @@ Definition msg_okb (span ml : N) (m : msg) : bool :=
   forallb (fun l => (mfb m <=? lfb l) && (llb l <=? mlb m)) (mlines m).
 Definition lspan_eqb (a b : lspan) : bool :=
   (lkey a =? lkey b) && (lfb a =? lfb b) && (llb a =? llb b) && Bool.eqb (ledge a) (ledge b) &&
-  (lend a =? lend b).
+  (lend a =? lend b) && (lbeg a =? lbeg b).
 Fixpoint linkedb (ms : list msg) : bool :=
   match ms with
   | [] => true
